@@ -32,6 +32,7 @@ Inductive beh :=
 | BCall (yields : nat)          (* makes a synchronous Call (waitResponse), then returns nil *)
 | BExit (reason : Z).           (* an exit signal from the parent (sendExitMessage: no alive check; the actor loop
                                    returns the reason without calling a behaviour callback) *)
+Definition is_exit_beh (b : beh) : bool := match b with BExit _ => true | _ => false end.
 
 Definition rkill : Z := 1.
 Definition rpanic : Z := 2.
@@ -197,9 +198,10 @@ Definition step_pc (s : shared) (p : pc) : option (shared * pc * option pc) :=
       | S _ => Some (s, S_lim b m todo, None)
       end
   | S_lim b m todo =>
-      (* queueLimitMPSC.Push: if q.Len()+1 > q.limit -> false; RouteSend*: fallback re-route or error *)
+      (* queueLimitMPSC.Push: if q.Len()+1 > q.limit -> false; RouteSend*: fallback re-route or error.
+         An exit signal (sendExitMessage) refused by the full Urgent queue is an error: it has no fallback path *)
       if Nat.leb (limit s) (length (qget (qs s) (mq m)))
-      then Some ((if fbon s then add_fb s (mid m) else add_err s (mid m)), next_send b todo, None)
+      then Some ((if fbon s && negb (is_exit_beh (mbeh m)) then add_fb s (mid m) else add_err s (mid m)), next_send b todo, None)
       else Some (upd_qs s (qset (qs s) (mq m) (qget (qs s) (mq m) ++ [(m, false)])), S_link b m todo, None)
   | S_link b m todo =>
       Some (add_ok (upd_qs s (qset (qs s) (mq m) (mark_linked (mid m) (qget (qs s) (mq m))))) (mid m),
